@@ -827,14 +827,14 @@ def g_slow_grid(F, rng, tier):
     out = []
     q = tier == "quick"
     p = F.p
-    Es = range(-20, 90) if q else range(-60, 140)
-    hs = range(1, 41) if q else range(1, 61)
+    Es = range(-20, 90) if q else range(-40, 120)
+    hs = range(1, 41) if q else range(1, 51)
     if F.name != "f64":
         Es = range(-20, 60) if q else range(-40, 100)
         Es = range(Es.start, Es.stop, 2) if q else Es
     for E in Es:
         for h in hs:
-            for frac in ((0.02, 0.93) if q else (0.02, 0.45, 0.93)):
+            for frac in ((0.02, 0.93) if q else (0.02, rng.choice((0.3, 0.45, 0.6)), 0.93)):
                 m = (1 << (p - 1)) + int(frac * (1 << (p - 1))) + rng.randrange(0, 1 << 16)
                 m = (m & ~1) | rng.getrandbits(1) if not q else m & ~1      # quick: even m (a lost tie is visible)
                 num = (2 * m + 1) * 10 ** h
@@ -958,7 +958,7 @@ def g_trailing_zeros(F, rng, tier):
         for k in ks:
             out.append(mk(F.name, "1" + "0" * k, "", n - k, "G26:pow10-significand"))
         for d in ((rng.randrange(2, 10),) if q else range(2, 10)):
-            for k in ((rng.choice((1, 2, 3)), rng.randrange(4, 19)) if q else (1, 2, 3, 7, 12, 17, 18)):
+            for k in ((rng.choice((1, 2, 3)), rng.randrange(4, 19)) if q else (1, rng.randrange(2, 17), 17, 18)):
                 out.append(mk(F.name, str(d) + "0" * k, "", n - k, "G26:trailing-zeros"))
     return out
 
@@ -1006,7 +1006,7 @@ def g_subnormal_neighbours(F, rng, tier):
     with a product of which only a few leading bits survive the subnormal shift"""
     out = []
     q = tier == "quick"
-    for _ in range(250 if q else 6000):
+    for _ in range(250 if q else 3000):
         bl = rng.randrange(1, F.mbits + 1)
         bits = rng.randrange(1 << (bl - 1), 1 << bl)
         M, k = F.midpoint(bits)
